@@ -29,6 +29,19 @@ def parseStats (s : String) : List (Nat × Float) :=
       | _, _ => none
     | _ => none
 
+def parseWeak (s : String) : List (Nat × Bool) :=
+  if s == "-" || s == "" then [] else
+  (s.splitOn "|").filterMap fun t => match t.splitOn ":" with
+    | [k, v] => k.toNat?.map fun k => (k, v == "1")
+    | _ => none
+
+def weakStr (l : List (Nat × Bool)) : String :=
+  if l.isEmpty then "-" else "|".intercalate ((l.mergeSort fun a b => a.1 ≤ b.1).map fun kv => s!"{kv.1}:{if kv.2 then 1 else 0}")
+
+/-- the units' own weaknesses as the harness registers them -/
+def baseWeak (t : Int) : List (Nat × Bool) :=
+  if t == 1 then [(2, true), (3, false)] else if t == 2 then [(6, false)] else []
+
 def cfgOfRec (r : Rec) : Cfg Float :=
   { stacking := r.nat "stacking", tick := r.nat "tick", dur := r.int "dur", count := r.int "count", maxCount := r.int "max",
     countAdd := r.int "cadd", status := r.nat "status", canDispel := r.bool "dispel",
@@ -42,7 +55,7 @@ def opOfRec (r : Rec) : Option (Op Float) :=
   match r.name with
   | "addmod" => some (.add t { name := r.nat "name", source := r.int "src", dur := r.int "dur", count := r.int "count",
                                maxCount := r.int "max", countAdd := r.int "cadd", tickImm := r.bool "imm",
-                               stats := parseStats (r.str "stats") })
+                               stats := parseStats (r.str "stats"), weak := parseWeak (r.str "weak") })
   | "rm" => some (.remove t (r.nat "name"))
   | "rmsrc" => some (.removeFromSource t (r.int "src") (r.nat "name"))
   | "rmself" => some (.removeSelf t (r.nat "uid"))
@@ -96,6 +109,8 @@ def listRec (s : St Float) (t : Int) : Rec :=
     |>.addS "stats" (";".intercalate (l.map fun i => if (statsStr i.stats) == "" then "-" else statsStr i.stats))
     |>.addF "atkpct" atkpct |>.addF "reduce" (propTotal (baseOf t) l 90)
     |>.addF "atk" (if out < 0 then 0 else out) |>.addF "cc" (propTotal (baseOf t) l 17)
+    |>.addS "weaks" (";".intercalate (l.map fun i => weakStr i.weak))
+    |>.addIs "weak" (((List.range 8).filter fun d => d ≥ 1 && weakTo (baseWeak t) l d).map Int.ofNat)
 
 /-- oracle input of the model: for a random dispel, which candidates the run's shuffle put first —
 read off the implementation's attached list after the operation (the candidates that are gone) -/
